@@ -94,10 +94,11 @@ def parseAll (c : Cfg) : Node → Bytes → Dec (String × Value)
   | .mk (.derived ..) _ _, _ => .panic .badLayout
 
 mutual
-/-- the layouts of a tree: every node's own fields in the class of the parser theorem; a child's parent has a payload -/
+/-- the layouts of a tree: every node's own fields in the class of the parser theorems (struct-typed fields of static size
+    included); a child's parent has a payload -/
 def wfNode : Node → Bool
-  | .mk (.derived _ parent _ _ items) _ ks => parent.hasPayload && Java.decWfItems2 items && wfNodes ks
-  | .mk (.root _ items) _ ks => Java.decWfItems2 items && wfNodes ks
+  | .mk (.derived _ parent _ _ items) _ ks => parent.hasPayload && Java.decWfItems3 items && wfNodes ks
+  | .mk (.root _ items) _ ks => Java.decWfItems3 items && wfNodes ks
 def wfNodes : List Node → Bool
   | [] => true
   | k :: ks => wfNode k && wfNodes ks
